@@ -2,7 +2,7 @@
 # usage: eval_seeded.sh <patch.diff> <property id> [tier]
 # Runs one of the registered checks against a scratch worktree of /repo with a seeded change applied.
 patch=$1; prop=$2; tier=${3:-quick}
-wt=/tmp/ev-$prop-$$
+mkdir -p /var/tmp/vscratch; wt=/var/tmp/vscratch/ev-$prop-$$      # not under /tmp: some runs get a private /tmp
 git -C /repo worktree add -q "$wt" HEAD || exit 2
 if ! git -C "$wt" apply "$patch"; then echo "patch does not apply to /repo HEAD"; git -C /repo worktree remove --force "$wt"; exit 2; fi
 cd /verif
